@@ -161,20 +161,23 @@ func ruleR03R04(c *Ctx) {
 		}
 		sizeField := c.sizeField(tk)
 		// ---------------- Insert
-		if u := tk.Methods["Insert"]; u != nil {
+		const (
+			evOV = iota
+			evRL
+			evLK
+			evRLK
+			evSZ
+			evVA
+			evBAD
+			evNS
+		)
+		names := []string{"OVERWRITE", "RELINK", "LINK", "ROOTLINK", "SIZE+", "VALUE", "UNRECOGNISED-TREE-WRITE", "NODE-STORE"}
+		// insertPaths analyses one function as (part of) the insertion algorithm; calls to other
+		// methods of the same tree type that contain tree writes are inlined by their exit summaries
+		var insertPaths func(u *FuncUnit, depth int) *pathResult
+		insertPaths = func(u *FuncUnit, depth int) *pathResult {
 			g := c.m.cfgOf(u)
 			fl := c.e.flow(u)
-			const (
-				evOV = iota
-				evRL
-				evLK
-				evRLK
-				evSZ
-				evVA
-				evBAD
-				evNS
-			)
-			names := []string{"OVERWRITE", "RELINK", "LINK", "ROOTLINK", "SIZE+", "VALUE", "UNRECOGNISED-TREE-WRITE", "NODE-STORE"}
 			// classify statements once
 			evMap := map[ast.Node][]int{}
 			var ovStmts []*ast.AssignStmt
@@ -324,7 +327,48 @@ func ruleR03R04(c *Ctx) {
 					}
 				}
 			}
-			res := runPaths(g, names,
+			inline := func(n ast.Node) ([]summary, *ast.CallExpr) {
+				if depth >= 2 {
+					return nil, nil
+				}
+				var found *ast.CallExpr
+				var cu *FuncUnit
+				ast.Inspect(n, func(x ast.Node) bool {
+					if _, isLit := x.(*ast.FuncLit); isLit {
+						return false
+					}
+					if call, ok := x.(*ast.CallExpr); ok && found == nil {
+						if f := c.m.staticCallee(call); f != nil {
+							if tu := c.m.ByObj[f]; tu != nil && tu != u && tu.Recv == tk.Name && tu.Lit == nil {
+								found, cu = call, tu
+							}
+						}
+					}
+					return true
+				})
+				if found == nil {
+					return nil, nil
+				}
+				sub := insertPaths(cu, depth+1)
+				var sums []summary
+				any := false
+				for _, b := range sub.g.Blocks {
+					if isPanicBlock(info, b) {
+						continue
+					}
+					for _, st := range sub.exits[b] {
+						if st.n != [maxEvents]uint8{} {
+							any = true
+						}
+						sums = append(sums, summary{n: st.n, flags: st.flags, ret: constBoolReturn(info, b)})
+					}
+				}
+				if !any {
+					return nil, nil // a helper without tree writes (restoreKey, …)
+				}
+				return sums, found
+			}
+			return runPathsOpt(g, names,
 				func(b *cfg.Block, i int, n ast.Node) []int { return evMap[n] },
 				func(b *cfg.Block, succ int) uint8 {
 					var f uint8
@@ -335,7 +379,11 @@ func ruleR03R04(c *Ctx) {
 						f |= flagLX
 					}
 					return f
-				})
+				}, &pathOpts{info: info, inline: inline})
+		}
+		if u := tk.Methods["Insert"]; u != nil {
+			g := c.m.cfgOf(u)
+			res := insertPaths(u, 0)
 			accepted := func(s pstate) bool {
 				n := s.n
 				if n[evNS] > 0 && n[evOV] == 0 {
@@ -419,6 +467,7 @@ func ruleR03R04(c *Ctx) {
 				evBAD
 			)
 			names := []string{"UNLINK", "SIZE-", "return-true", "return-false", "UNRECOGNISED-TREE-WRITE"}
+			var deletePaths func(u *FuncUnit, depth int) *pathResult
 			ev := func(b *cfg.Block, i int, n ast.Node) []int {
 				switch x := n.(type) {
 				case *ast.AssignStmt:
@@ -457,12 +506,66 @@ func ruleR03R04(c *Ctx) {
 				}
 				return nil
 			}
-			res := runPaths(g, names, ev, func(b *cfg.Block, succ int) uint8 {
-				if c.loopExitEdge(b, succ) {
-					return flagLX
+			deletePaths = func(du *FuncUnit, depth int) *pathResult {
+				inline := func(n ast.Node) ([]summary, *ast.CallExpr) {
+					if depth >= 2 {
+						return nil, nil
+					}
+					var found *ast.CallExpr
+					var cu *FuncUnit
+					ast.Inspect(n, func(x ast.Node) bool {
+						if _, isLit := x.(*ast.FuncLit); isLit {
+							return false
+						}
+						if call, ok := x.(*ast.CallExpr); ok && found == nil {
+							if f := c.m.staticCallee(call); f != nil {
+								if tu := c.m.ByObj[f]; tu != nil && tu != du && tu.Recv == tk.Name && tu.Lit == nil {
+									found, cu = call, tu
+								}
+							}
+						}
+						return true
+					})
+					if found == nil {
+						return nil, nil
+					}
+					sub := deletePaths(cu, depth+1)
+					var sums []summary
+					any := false
+					for _, b := range sub.g.Blocks {
+						if isPanicBlock(info, b) {
+							continue
+						}
+						for _, st := range sub.exits[b] {
+							sm := summary{n: st.n, flags: st.flags, ret: constBoolReturn(info, b)}
+							if sm.n[evUN] > 0 || sm.n[evSZ] > 0 || sm.n[evBAD] > 0 {
+								any = true
+							}
+							sm.n[evRT], sm.n[evRF] = 0, 0
+							// `return helper(…)` hands the helper's result on
+							if rs, ok := n.(*ast.ReturnStmt); ok && len(rs.Results) == 1 && ast.Unparen(rs.Results[0]) == ast.Expr(found) {
+								if sm.ret == 1 {
+									sm.n[evRT] = 1
+								} else {
+									sm.n[evRF] = 1
+								}
+							}
+							sums = append(sums, sm)
+						}
+					}
+					if !any {
+						return nil, nil
+					}
+					return sums, found
 				}
-				return 0
-			})
+				return runPathsOpt(c.m.cfgOf(du), names, ev, func(b *cfg.Block, succ int) uint8 {
+					if c.loopExitEdge(b, succ) {
+						return flagLX
+					}
+					return 0
+				}, &pathOpts{info: info, inline: inline})
+			}
+			res := deletePaths(u, 0)
 			nExits := 0
 			for _, b := range g.Blocks {
 				states, ok := res.exits[b]
@@ -585,9 +688,20 @@ func ruleR14(c *Ctx) {
 				}
 				key := fmt.Sprintf("%s writes %s.%s", u.Name, rt.Obj().Name(), f)
 				owner := base == rt.Obj().Name()+".Insert" || base == rt.Obj().Name()+".Delete"
+				// helpers that Insert/Delete delegate to are part of them
+				if !owner {
+					for _, root := range []string{rt.Obj().Name() + ".Insert", rt.Obj().Name() + ".Delete"} {
+						if ru := c.m.ByName[root]; ru != nil && c.reachableFrom([]*FuncUnit{ru})[u] {
+							owner = true
+						}
+					}
+				}
+				inQuery := c.reachOf("C15")[u]
 				switch {
+				case !owner && inQuery:
+					c.r.bad("R14", key, c.m.pos(l.Pos()), "the size counter is written by a function reachable from the query entry points", "C06", "C15")
 				case !owner:
-					c.r.bad("R14", key, c.m.pos(l.Pos()), "the size counter is written outside Insert/Delete of its own tree type", "C06", "C15")
+					c.r.ok("R14", key, c.m.pos(l.Pos()), "written by a mutator that is neither Insert nor Delete nor reachable from a query (outside the histories the property quantifies over)", "C06")
 				case tok != token.INC && tok != token.DEC:
 					c.r.bad("R14", key, c.m.pos(l.Pos()), "the size counter is changed by something other than ++/--", "C06")
 				case tok == token.INC && !strings.HasSuffix(base, ".Insert"), tok == token.DEC && !strings.HasSuffix(base, ".Delete"):
